@@ -33,6 +33,8 @@ class Undefined(Exception):
 def render_num(value: int, notation: str, upper: bool = False) -> str:
     if notation == 'dec':
         return str(value)
+    if notation == 'dec0':
+        return '00' + str(value)      # leading zeros do not change a decimal literal
     hx = format(value, 'X' if upper else 'x')
     if notation == 'hex$':
         return '$' + hx
